@@ -164,8 +164,27 @@ let utf8_mode (file : string) : unit =
    with End_of_file -> ());
   Printf.printf "utf8_valid compared %d disagreements %d\n" !n !bad
 
+(* `driver --pushloop TOTAL PATTERN`: the extracted bookkeeping machine GrowSim.gstep run over the same piece widths as
+   `runner --pushloop`; prints one `G <len before> <capacity after>` line per request and a final END line *)
+let pushloop_mode (total : int) (pattern : string) : unit =
+  let st = ref { gl = N0; gc = n_of_int 16; gk = O; gcp = N0 } in
+  let k = ref 0 and len = ref 0 and i = ref 0 in
+  let np = String.length pattern in
+  let continue = ref true in
+  while !continue do
+    let w = Char.code pattern.[!i mod np] - 48 in
+    if !len + w > total then continue := false else begin
+      let st' = gstep !st (n_of_int w) in
+      let k' = int_of_nat st'.gk in
+      if k' <> !k then begin k := k'; Printf.printf "G %d %d\n" !len (int_of_n st'.gc) end;
+      st := st'; len := !len + w; incr i
+    end
+  done;
+  Printf.printf "END len=%d cap=%d requests=%d copied=%d\n" (int_of_n !st.gl) (int_of_n !st.gc) (int_of_nat !st.gk) (int_of_n !st.gcp)
+
 let () =
   if Array.length Sys.argv > 2 && Sys.argv.(1) = "--utf8" then (utf8_mode Sys.argv.(2); exit 0);
+  if Array.length Sys.argv > 3 && Sys.argv.(1) = "--pushloop" then (pushloop_mode (int_of_string Sys.argv.(2)) Sys.argv.(3); exit 0);
   let ic = if Array.length Sys.argv > 1 then open_in Sys.argv.(1) else stdin in
   let buf = Buffer.create 65536 in
   let case_id = ref "" and statics = ref [] and fails = ref [] and limit = ref (n_of_int 1073741824) in
